@@ -9,10 +9,10 @@ export CARGO_TARGET_DIR=$WT/target
 cd $WT || exit 3
 echo "== with patch: crate tests"
 git -C $WT diff --stat -- . ':!SEEDED' | tail -3
-cargo test -p $CRATE --offline --no-fail-fast 2>&1 | grep -E "^test result|FAILED|failed|^test .* FAILED|^error" | head -20 > $WT/SEEDED/with_patch.txt; cat $WT/SEEDED/with_patch.txt
+cargo test -p $CRATE $FEATURES --offline --no-fail-fast 2>&1 | grep -E "^test result|FAILED|failed|^test .* FAILED|^error" | head -20 > $WT/SEEDED/with_patch.txt; cat $WT/SEEDED/with_patch.txt
 echo "== without patch: crate tests"
 git apply -R SEEDED/patch.diff || { echo "cannot revert patch"; exit 3; }
-cargo test -p $CRATE --offline --no-fail-fast 2>&1 | grep -E "^test result|FAILED|failed|^error" | head -20 > $WT/SEEDED/without_patch.txt; cat $WT/SEEDED/without_patch.txt
+cargo test -p $CRATE $FEATURES --offline --no-fail-fast 2>&1 | grep -E "^test result|FAILED|failed|^error" | head -20 > $WT/SEEDED/without_patch.txt; cat $WT/SEEDED/without_patch.txt
 git apply SEEDED/patch.diff
 mkdir -p $ROOT/seeded/$ID && cp -r $WT/SEEDED/* $ROOT/seeded/$ID/
 cd $ROOT
